@@ -37,8 +37,13 @@ def val(o):
 
 
 def make_case(rng, tier):
-    kinds = ['ew', 'ew', 'bin', 'bin', 'binc', 'getitem', 'sum', 'transpose', 'reshape', 'dot', 'dotc', 'outer', 'prod', 'buffer', 'buffer', 'powbin', 'fftfilter']
+    kinds = ['ew', 'ew', 'bin', 'bin', 'binc', 'getitem', 'sum', 'transpose', 'reshape', 'dot', 'dotc', 'outer', 'prod', 'buffer', 'buffer', 'powbin', 'fftfilter', 'symvec']
     prog = gen_program(rng, maxsteps=6 if tier == 'quick' else 12, kinds=kinds)
+    if rng.random() < 0.08:
+        # symvec of a non-symmetric square matrix with an explicit UPLO through the dispatcher, then vecsym, then whatever follows
+        n = rng.choice([2, 3])
+        prog = {'inputs': [[n, n]], 'steps': [{'op': 'symvec', 'a': 0, 'UPLO': rng.choice(['L', 'U', 'F'])}, {'op': 'vecsym', 'a': 1},
+                                               {'op': 'bin', 'fn': 'mul', 'a': 2, 'b': 0}], 'out': 3, 'out_shape': [n, n]}
     if rng.random() < 0.06:
         # a traced base raised to a traced exponent: (x*x + 1) ** (0.5*x + 1), followed by whatever the generator appends
         n = rng.choice([2, 3])
